@@ -315,7 +315,15 @@ def check_case(case, sess: Session, history=None, full_perm_limit=6, rng=None, s
             mags = sorted((abs(v) for v in m["scaled"].values()), reverse=True)
             amb = False
             if 0 < K < len(mags):
-                amb = abs(mags[K - 1] - mags[K]) <= 1e-9 * max(1e-300, mags[K - 1]) and mags[K - 1] != mags[K]
+                # near-tie band around the cut magnitude: if the two kept sets differ only inside the band and the band
+                # holds a value that is close to but not exactly the cut (the exact rational merge and the float merge may
+                # round it to either side, e.g. 0.1+0.3-0.2), the kept set is undecidable; a purely exact tie is decided
+                # by the canonical-key tie-break and stays enforced
+                cut = mags[K - 1]
+                band = {k for k, v in m["scaled"].items() if abs(abs(v) - cut) <= 1e-9 * max(1e-300, cut)}
+                symdiff = set(keys) ^ set(kept.keys())
+                exact_only = all(abs(m["scaled"][k]) == cut for k in band)
+                amb = bool(symdiff) and symdiff <= band and not exact_only
             # clamp/scale borderline: a value within tol of the novelty cap
             if amb:
                 sess.count("model_inconclusive_tie")
